@@ -3,6 +3,7 @@ reading a context back after `setCtx` / `setCur` / `removeChild`. -/
 import AsphaltModel.Context
 import AsphaltProofs.Lemmas.Assoc
 import AsphaltProofs.Lemmas.ExitWith
+import AsphaltProofs.Lemmas.GetNow
 
 namespace Asphalt
 
@@ -99,12 +100,30 @@ theorem ctxGetNowait_frame (cid : CtxId) (x : Ctx) (k : Key) (opt : Bool) :
         exact (storeGenerated_frame cid _ _ _).trans hc
   · exact SameFrame.refl x
 
+theorem ctxGetNow_frame (cid : CtxId) (x : Ctx) (k : Key) (opt : Bool) :
+    SameFrame (ctxGetNow cid x k opt).1 x := by
+  unfold ctxGetNow
+  split
+  · exact SameFrame.refl x
+  split
+  · exact SameFrame.refl x
+  split
+  · split
+    · exact SameFrame.refl x
+    · have hc := callFactory_frame cid x ‹Factory›
+      split
+      · rename_i heq; rw [heq] at hc; exact hc
+      · rename_i heq; rw [heq] at hc
+        exact (storeGenerated_frame cid _ _ _).trans hc
+  · exact SameFrame.refl x
+
 theorem runBodyOp_frame (cid : CtxId) (cur : Option CtxId) (x : Ctx) (op : BodyOp) :
     SameFrame (runBodyOp cid cur x op).1 x := by
   cases op with
   | add types name v => exact ctxAdd_frame cid x _ rfl
   | addFactory types name fid => exact ctxAddFactory_frame cid x _
   | getNowait ty name opt => exact ctxGetNowait_frame cid x _ opt
+  | get ty name opt => exact ctxGetNow_frame cid x _ opt
   | current => exact SameFrame.refl x
 
 theorem runBody_frame (cid : CtxId) (cur : Option CtxId) (x : Ctx) (ops : List BodyOp) :
